@@ -118,7 +118,7 @@ def run_driver(run, tier, focus, drv, replay=None):
                 run.note("control_%s_%s" % (drv, cfg), "violates %s as expected" % expect)
             # 2. schedules
             n = 0
-            nsim = 350 if tier == "quick" else 4000
+            nsim = 600 if tier == "quick" else 6000
             with open(cases_path, "w") as f:
                 def sink(o):
                     nonlocal n
